@@ -113,7 +113,7 @@ void zp_random(vf::Tape& t, vf::Ctx& ctx, const char* ename) {
     }
     return;
   }
-  uint32_t p = pick_prime(t, 65521, sizeof(E) > 4 ? 0 : 4);  // 64-bit elements have no boundary near 2^16
+  uint32_t p = pick_prime(t, 65521, sizeof(E) > 4 ? 0 : kNumBigPrimes);  // 64-bit elements have no boundary near 2^16
   if (mode == 3 && p > 8191) p = 251;  // copies of the operator object: small tables only
   ctx.desc << "Zp_field_operators<" << ename << ">: p=" << p << "\n";
   if (p > 46341) ctx.hit("p_above_46341");
@@ -209,7 +209,10 @@ void z2_triple(vf::Ctx& ctx, unsigned a, unsigned b, unsigned c) {
   VF_CHECK(pi.first == bool(a) && pi.second == 35u, "z2_partial_inverse", Z2_CASE);
   VF_CHECK(Z2::get_characteristic() == 2 && Z2::get_additive_identity() == false && Z2::get_multiplicative_identity() == true &&
                Z2::get_partial_multiplicative_identity(7) == true, "z2_constants", Z2_CASE);
-  ctx.mark_nontrivial();  // p - 1 = 1 is an operand, or the triple is all zero (8 cases in total)
+  if (a == 1 || b == 1 || c == 1) {  // p - 1 = 1 is an operand
+    ctx.hit("operand_p_minus_1");
+    ctx.mark_nontrivial();
+  }
 }
 
 void z2_case(vf::Ctx& ctx, unsigned a, unsigned b, unsigned c) {
